@@ -37,7 +37,7 @@ ASSUMPTIONS = [
     "'the end marker' = EI followed by a byte for which bytes.isspace() is true; inline data is written as ID<space>data<LF>EI<LF> and does not end in CR",
     "export formats limited to those that do not need Pillow (DCT pass-through, 1-bit / 8-bit gray / 8-bit RGB bitmaps)",
 ]
-PROBES = ["dct data continues behind the EOI marker", "CR after ID and data starting with LF", "dct behind further filters", "same XObject drawn twice", "inline image ending at the ASCII85 marker", "inline image", "xobject image", "gray8", "rgb8", "1bit", "dct", "filter chain", "unfiltered", "row padding needed", "boundary placed in inline markers", "contents split after image", "inline data contains EI", "preexisting export name", "two images same name", "bmp exported", "jpg exported"]
+PROBES = ["two inline images with the same data bytes", "dct data continues behind the EOI marker", "CR after ID and data starting with LF", "dct behind further filters", "same XObject drawn twice", "inline image ending at the ASCII85 marker", "inline image", "xobject image", "gray8", "rgb8", "1bit", "dct", "filter chain", "unfiltered", "row padding needed", "boundary placed in inline markers", "contents split after image", "inline data contains EI", "preexisting export name", "two images same name", "bmp exported", "jpg exported"]
 TIERS = {
     "quick": {"batches": 16, "runs": 450, "budget_s": 50},
     "thorough": {"batches": 128, "runs": 500, "budget_s": 1200},
@@ -293,6 +293,15 @@ def run(tape, ctx, item=None):
         else:
             im["inline"] = False
         images.append(im)
+    twins = [im for im in images if im["inline"] and im["kind"] == "gray8" and im["w"] != im["h"]]
+    if twins and len(images) < 4 and t.coin(40, 100, "img.twin"):
+        # a second inline image with the very same data bytes but the other geometry (w x h -> h x w): a different
+        # image, which needs a file of its own
+        im = dict(t.pick(twins, "img.twin.of"))
+        im["w"], im["h"] = im["h"], im["w"]
+        im["rowlen"] = im["w"]
+        images.append(im)
+        ctx.probe("two inline images with the same data bytes")
     for im in images:
         if not im["inline"] and t.coin(20, 100, "img.twice"):
             im["twice"] = True
